@@ -17,7 +17,11 @@ CFG = {
                   "C09_tree_abstract_agrees: those tables answer exactly as the red-black models). The pre-repair Remove (ordering list searched with a coarser equality, D21) is proved to break the table/list "
                   "agreement. The model is tied to the code on every run by replaying operation sequences on the real containers (int, string and pointer "
                   "keys, plain and Safe variants) and evaluating model and specification on the same sequences inside Coq.",
-    "level_note": "treeset / treebidimap: the correspondence check (C09/Check.v) now evaluates the red-black models themselves (rb_set_step, rb_bidi_step, ts_union / "
+    "level_note": "UnmarshalJSON into a USED container is exercised as an operation of the sequences (one step in ten, int / string keys, maps, sets and bidi-maps, plain and Safe): the code decodes, "
+                  "calls Clear() and re-inserts, so on model and reference it is the operation list Clear; Put... / Clear; Add... (mact_ops / sact_ops / bact_ops in Check.v) that the theorems already "
+                  "cover; a decoder that merges into the used container is a kind-2 disagreement with the reference map. The harness writes those documents itself (distinct keys and values), "
+                  "independently of MarshalJSON (C15). "
+                  "treeset / treebidimap: the correspondence check (C09/Check.v) now evaluates the red-black models themselves (rb_set_step, rb_bidi_step, ts_union / "
                   "ts_inter / ts_diff) against the recorded snapshots, with the comparator shape the container was built with: the built-in -1/0/+1 comparator or a user "
                   "comparator a-b, b-a, (b-a)*7, (a-b)*3, k*strings.Compare, a struct field of a pointer key (cmpsel / cmp_of in Check.v: k*(a-b) on the key numbers, which has "
                   "the sign of the real comparator on the real keys - magnitudes are not modelled, correct tree code only looks at the sign; C09_comparator_shapes proves "
